@@ -49,3 +49,20 @@ def collect(h):
     h.nat("SEGMENT_HASH_SIZE_1", w0._segment_hash_size, "_segment_hash_size for num_segments = 1")
     w3 = layout.WriteBucketProxy(None, None, 0, 0, 3, 0, 0)
     h.nat("SEGMENT_HASH_SIZE_3", w3._segment_hash_size, "_segment_hash_size for num_segments = 3 (next power of two: 4 leaves, 7 nodes)")
+    # --- C05: convergence hashing
+    from allmydata.util import hashutil
+    h.bytes("CONVERGENT_ENCRYPTION_TAG", hashutil.CONVERGENT_ENCRYPTION_TAG, "util/hashutil.py CONVERGENT_ENCRYPTION_TAG")
+    h.bytes("STORAGE_INDEX_TAG", hashutil.STORAGE_INDEX_TAG, "util/hashutil.py STORAGE_INDEX_TAG")
+    h.nat("KEYLEN", hashutil.KEYLEN, "util/hashutil.py KEYLEN")
+    h.nat("CONVERGENCE_KEY_LEN", len(hashutil.convergence_hash(3, 10, 1024, b"data", b"secret")),
+          "len(convergence_hash(...)): truncation passed to tagged_hasher by convergence_hasher")
+    h.nat("STORAGE_INDEX_LEN", len(hashutil.storage_index_hash(b"k" * 16)), "len(storage_index_hash(key))")
+    ok = []
+    for (k, n) in [(1, 1), (256, 256), (1, 256), (0, 1), (1, 0), (2, 1), (257, 257), (1, 257)]:
+        try:
+            hashutil._convergence_hasher_tag(k, n, 1024, b"")
+            ok.append(1)
+        except ValueError:
+            ok.append(0)
+    h.natlist("CONVERGENCE_KN_ACCEPTED", ok,
+              "_convergence_hasher_tag accepts (k,n) in [(1,1),(256,256),(1,256),(0,1),(1,0),(2,1),(257,257),(1,257)] (1 = accepted)")
